@@ -33,39 +33,42 @@ Theorem C01_ring_overflow_falls_back : forall rcap scap share s tid r s1,
 Proof. exact ring_overflow_falls_back. Qed.
 Print Assumptions C01_ring_overflow_falls_back.
 
-(* dtor_drains_all: in any accepted trace in which the destructor (thread d) reaches its end, under the documented contract
-   (stated on the trace: when it begins no submission is in progress and threads other than d and the pool's workers are outside
-   the pool; afterwards only d and those workers act and nothing new is generated), every tier is empty, no thread holds or
-   executes anything, and every submitted id has completed exactly once. *)
-Theorem C01_dtor_drains_all : forall rcap scap share n0 tr1 s1 d tr3 s,
-  accepts rcap scap share (init share n0) tr1 = Some s1 -> quiet s1 d ->
-  Forall (contract_event s1 d) tr3 ->
-  accepts rcap scap share s1 ((d, EDtorBegin) :: tr3 ++ [(d, EDtorEnd)]) = Some s ->
-  rz s = RDead /\ central s = [] /\ (forall j, lget [] j (rings s) = []) /\ (forall j, lget [] j (steals s) = []) /\
-  (forall u, th_ids (getT s u) = []) /\
-  forall t, In t (gens s) -> cnt t (done s) = 1.
-Proof. exact dtor_drains_all. Qed.
-Print Assumptions C01_dtor_drains_all.
-
-(* The same statement under the contract as literally documented ("... while any OTHER thread makes calls to the pool"), i.e. without forbidding
-   submissions by tasks that the destructor's own drains run: *)
+(* The statement one would like, under the contract of ~ThreadPool as documented ("illegal to call the destructor while any OTHER thread
+   makes calls to the pool"): when the destructor (thread d) starts, no submission is in progress and threads other than d and the pool's
+   workers are outside the pool ([quiet]); afterwards only d and those workers act ([contract_event]); then at the destructor's return
+   every submitted id has completed exactly once. *)
 Definition C01_full_statement : Prop :=
   forall rcap scap share n0 tr1 s1 d tr3 s,
   accepts rcap scap share (init share n0) tr1 = Some s1 -> quiet s1 d ->
-  Forall (contract_event_weak s1 d) tr3 ->
+  Forall (contract_event s1 d) tr3 ->
   accepts rcap scap share s1 ((d, EDtorBegin) :: tr3 ++ [(d, EDtorEnd)]) = Some s ->
   forall t, In t (gens s) -> cnt t (done s) = 1.
 
 (* It is FALSE of the code as written: ~ThreadPool drains the central queue BEFORE the locality rings and the steal rings and never looks at it
    again, and numThreads_ is still non-zero, so a task that one of those ring drains runs and that calls pool.schedule() enqueues a child
-   that nobody will ever run (witness = trace of the real code, replayed on every run; known finding dtor-drain-task-reschedules).
-   C01_dtor_drains_all above is the property on the complement: no task generated after the destructor began. *)
+   that nobody will ever run (witness = trace of the real code, replayed on every run; known finding dtor-drain-task-reschedules). *)
 Theorem C01_refuted : ~ C01_full_statement.
 Proof.
   intros F. destruct c01_late_witness as (s1 & s & H1 & Q & Hf & H & _ & Hg & Hd & _).
   specialize (F 16 32 8 1 _ _ _ _ _ H1 Q Hf H 1). rewrite Hg, Hd in F. specialize (F (or_introl eq_refl)). vm_compute in F. discriminate F.
 Qed.
 Print Assumptions C01_refuted.
+
+(* dtor_drains_all = C01_holds_except: the same statement on the complement of the finding's domain.  The domain is the Gallina predicate
+   [late_gen] (Model/PoolModel.v) -- "some task is generated after the destructor's last central-queue drain has finished" -- evaluated on the
+   whole trace; it is the very predicate the judge (Model/PoolCheck.v) uses to classify a never-invoked task as the known finding.  Tasks that
+   the destructor or the workers run BEFORE that point may submit freely.  Conclusion: every tier is empty, no thread holds or executes
+   anything, every submitted id has completed exactly once. *)
+Theorem C01_dtor_drains_all : forall rcap scap share n0 tr1 s1 d tr3 s,
+  accepts rcap scap share (init share n0) tr1 = Some s1 -> quiet s1 d ->
+  Forall (contract_event s1 d) tr3 ->
+  accepts rcap scap share s1 ((d, EDtorBegin) :: tr3 ++ [(d, EDtorEnd)]) = Some s ->
+  late_gen rcap scap share (init share n0) (tr1 ++ (d, EDtorBegin) :: tr3 ++ [(d, EDtorEnd)]) = false ->
+  rz s = RDead /\ central s = [] /\ (forall j, lget [] j (rings s) = []) /\ (forall j, lget [] j (steals s) = []) /\
+  (forall u, th_ids (getT s u) = []) /\
+  forall t, In t (gens s) -> cnt t (done s) = 1.
+Proof. exact dtor_drains_all. Qed.
+Print Assumptions C01_dtor_drains_all.
 
 (* zero-thread pool: forceEnqueue reads numThreads_ == 0 and the submitter's next event is the inline call of that task *)
 Theorem C01_zero_thread_pool_runs_inline : forall rcap scap share s tid nz s1,
@@ -83,21 +86,27 @@ Theorem C01_every_event_conserves : forall rcap scap share s tid e s',
 Proof. exact step_conservation. Qed.
 Print Assumptions C01_every_event_conserves.
 
-(* non-vacuity: a 1-thread pool whose destructor starts while two force-queued tasks are still in the central queue; the worker
-   runs one, the destructor's own central drain the other; the contract hypotheses hold and both tasks are done exactly once. *)
+(* non-vacuity: a 1-thread pool whose destructor starts while two force-queued tasks are still in the central queue; the worker runs one,
+   the destructor's own central drain the other -- whose body submits a THIRD task while the destructor is running (allowed: it happens
+   before the last central drain); the hypotheses hold, [late_gen] is false, and all three tasks are done exactly once. *)
 Definition c01_prefix : list (nat * event) :=
   [(1%nat,EWorkerBegin 0); (0%nat,EGen 0); (0%nat,ELoadNumThreads true 1); (0%nat,EAdd 1 1); (0%nat,EEnqCentral 0 1);
    (0%nat,EGen 1); (0%nat,ELoadNumThreads true 1); (0%nat,EAdd 1 1); (0%nat,EEnqCentral 0 1)].
 Definition c01_during : list (nat * event) :=
   [(0%nat,EStopAll); (0%nat,EWakeAll); (1%nat,EPopCentral 0 1); (0%nat,EPopCentral 1 0); (1%nat,EBodyBegin 0); (0%nat,EBodyBegin 1);
-   (0%nat,EBodyEnd 1); (0%nat,ESub 1 1); (1%nat,EBodyEnd 0); (1%nat,ESub 1 3); (0%nat,ECentralDone 2); (0%nat,EJoinBegin);
+   (0%nat,EGen 2); (0%nat,ELoadNumThreads true 1); (0%nat,EAdd 1 1); (0%nat,EEnqCentral 0 1);
+   (0%nat,EBodyEnd 1); (0%nat,ESub 1 1); (1%nat,EBodyEnd 0); (1%nat,ESub 1 3);
+   (0%nat,EPopCentral 2 0); (0%nat,EBodyBegin 2); (0%nat,EBodyEnd 2); (0%nat,ESub 1 1);
+   (0%nat,ECentralDone 2); (0%nat,EJoinBegin);
    (1%nat,EWorkerEnd 0); (0%nat,EJoinDone); (0%nat,ECentralDone 3); (0%nat,ERingDone 0); (0%nat,EStealDone 0)].
 Example C01_nonvacuous :
   exists s1 s, accepts 16 32 8 (init 8 1) c01_prefix = Some s1 /\ quiet s1 0 /\ Forall (contract_event s1 0%nat) c01_during /\
-    accepts 16 32 8 s1 ((0%nat, EDtorBegin) :: c01_during ++ [(0%nat, EDtorEnd)]) = Some s /\ done s = [0; 1] /\ wr s = 0.
+    accepts 16 32 8 s1 ((0%nat, EDtorBegin) :: c01_during ++ [(0%nat, EDtorEnd)]) = Some s /\
+    late_gen 16 32 8 (init 8 1) (c01_prefix ++ (0%nat, EDtorBegin) :: c01_during ++ [(0%nat, EDtorEnd)]) = false /\
+    done s = [2; 0; 1] /\ wr s = 0.
 Proof.
   eexists. eexists. split; [vm_compute; reflexivity|]. split; [apply quietb_sound; vm_compute; reflexivity|].
-  split; [repeat (apply Forall_cons; [unfold contract_event; cbn [fst snd is_gen is_dtor_end]; repeat split; first [left; reflexivity | right; vm_compute; reflexivity]|]); apply Forall_nil|].
+  split; [repeat (apply Forall_cons; [unfold contract_event; cbn [fst snd is_dtor_end]; split; [reflexivity|]; first [left; reflexivity | right; vm_compute; reflexivity]|]); apply Forall_nil|].
   vm_compute. repeat split.
 Qed.
 
